@@ -568,7 +568,7 @@ func init() {
 		Level: "exploration",
 		Rule: "every combination of collection kind (15: incl. slices with nil items, slices of any/int/int32/string/bool/map/struct/*struct, array, nil slice, nil value, missing) x length x access path x loop form (incl. the tight and padded spellings of (i, v)) x loop-variable name (fresh / shadows a map key / shadows a root struct field by name / by JSON tag / spelled with non-ASCII letters, digits, _ or $ / named like a function of the expression library) x v-else (none/adjacent/after whitespace) x looped element (plain, per-item v-if keeping some / no items, bindings, <template>) x root data (map/struct/*struct) x printing position ({{ }}, expression); plus nested loops; plus a body part: 23 ways a loop body can consume the item (text, deep text, interpolated/bound attribute, :class, :style, v-text, v-html, <template v-html>, v-show, inner v-if/v-else, <template :var>, include with bound / interpolated prop, slot content used once / twice, prop-less include, v-slot template without props, include without content, inner v-for, filters, pre) x 1..3 items x loop form x looped element x entry point, with the oracle: instance i shows item i and no other item and equals the single instance of a loop over [item i] alone, and the outer variables named like the loop variables have their outer values before and after the loop. " +
 			"oracle: reference interpreter gives the instance list, for-else presence and the value of the loop variable's name before and after the loop. non-trivial = at least one item",
-		Bounds:      map[string]string{"quick": "lengths 0..2, nesting depth 2", "thorough": "lengths 0..3, nesting depth 2"},
+		Bounds:      map[string]string{"quick": "lengths 0..2 in the full product, lengths up to 33 for 4 collection kinds, nesting depth 2", "thorough": "lengths 0..3, nesting depth 2"},
 		Assumptions: []string{"iteration over maps is C10's subject, not enumerated here"},
 		Decode:      core.DecodeAs[c04Case](),
 		Enumerate: func(tier string, emit func(core.Case)) {
@@ -596,6 +596,16 @@ func init() {
 									emit(&c04Case{Body: body, Coll: coll, Len: n, Form: form, Elem: elem, Entry: entry})
 								}
 							}
+						}
+					}
+				}
+			}
+			// long collections: lengths beyond the small-input regime of sorts, slices and maps
+			for _, coll := range []string{"strings", "ints", "structs", "anysnil"} {
+				for _, n := range []int{3, 4, 5, 7, 8, 9, 12, 13, 16, 17, 33} {
+					for _, form := range []string{"x", "ix"} {
+						for _, elem := range []string{"plain", "vif", "bind", "tmpl"} {
+							emit(&c04Case{Coll: coll, Len: n, Path: "xs", Form: form, Var: "it", Else: "adj", Elem: elem, Root: "map", Print: "must", Entry: "string"})
 						}
 					}
 				}
